@@ -47,6 +47,9 @@ Lemma wbind_ext {A B} (m : W A) (k k' : A -> W B) w :
   (forall a w', k a w' = k' a w') -> wbind m k w = wbind m k' w.
 Proof. intros H. unfold wbind. destruct (m w) as [[[a|e] w']| |]; auto. Qed.
 
+Lemma wbind_ext2 {A B} (m m' : W A) (k : A -> W B) : (forall w, m w = m' w) -> forall w, wbind m k w = wbind m' k w.
+Proof. intros H w. unfold wbind. rewrite H. reflexivity. Qed.
+
 Lemma merge_element_unfold fl pa files pb nf w :
   merge_element T LATEST defref (S fl) pa files pb nf w =
   (do w <- wget;
